@@ -675,6 +675,21 @@ RULES = {
                  "for $i in ( 0 .. $$e ) . rev ( ) { $$body }", "{ let mut i__ = $$e ; while i__ > 0 { i__ -= 1 ; let $i = i__ ; $$body } }"),
     "R10p": Rule("R10p", "for i in 2..1 << n { BODY } -> { let mut i__ = 2; let e__ = 1 << n; while i__ < e__ { let i = i__; i__ += 1; BODY } }  (std: Range<usize> yields 2, .., e-1; end evaluated once)",
                  "for $i in 2 .. 1 << n { $$body }", "{ let mut i__ = 2 ; let e__ = 1 << n ; while i__ < e__ { let $i = i__ ; i__ += 1 ; $$body } }"),
+    "R3mb": Rule("R3mb", "acc %= modulus; -> RemAssign::rem_assign(&mut acc, modulus);", "acc %= modulus ;", "RemAssign :: rem_assign ( & mut acc , modulus ) ;"),
+    "R3mc": Rule("R3mc", "acc *= &base; -> MulAssign::mul_assign(&mut acc, &base);", "acc *= & base ;", "MulAssign :: mul_assign ( & mut acc , & base ) ;"),
+    "R3pa": Rule("R3pa", "base % modulus -> Rem::rem(base, modulus)", "= base % modulus ;", "= Rem :: rem ( base , modulus ) ;"),
+    "R3pb": Rule("R3pb", "&base * &base % modulus -> Rem::rem(Mul::mul(&base, &base), modulus)  (Rust precedence: `*` and `%` left-associative, equal precedence)",
+                 "& base * & base % modulus", "Rem :: rem ( Mul :: mul ( & base , & base ) , modulus )"),
+    "R14n": Rule("R14n", "debug_assert_ne!(..); -> (dropped)", "debug_assert_ne ! ( $$c ) ;", ""),
+    "R10n": Rule("R10n", "for _ in A..E { BODY } -> { let mut i__ = A; let e__ = E; while i__ < e__ { i__ += 1; BODY } }  (std: Range yields A, .., E-1; bounds evaluated once)",
+                 "for _ in $$a .. $$e { $$body }", "{ let mut i__ = $$a ; let e__ = $$e ; while i__ < e__ { i__ += 1 ; $$body } }",
+                 guard=lambda e: all(t not in (";", "{", "}") for t in e["$$a"] + e["$$e"])),
+    "R28a": Rule("R28a", "S.iter().position(|&r| r != 0) -> __position_nonzero(S)  (std: index of the first element satisfying the predicate, None if none)",
+                 "exp_data . iter ( ) . position ( | & r | r != 0 )", "__position_nonzero ( exp_data )"),
+    "R28b": Rule("R28b", "let mut it = S[K..].iter(); -> let mut it: &[BigDigit] = &S[K..];  (MODEL: a slice iterator is represented by the sub-slice it has yet to yield; `it.len()` is then the remaining count)",
+                 "let mut exp_iter = exp_data [ i + 1 .. ] . iter ( ) ;", "let mut exp_iter : & [ BigDigit ] = & exp_data [ i + 1 .. ] ;"),
+    "R28c": Rule("R28c", "if let Some(&last) = it.next_back() { S } -> { let (nb__, rest__) = __slice_next_back(it); it = rest__; if let Some(&last) = nb__ { S } }  (std: DoubleEndedIterator::next_back on slice::Iter yields the last remaining element and shrinks the remainder)",
+                 "if let Some ( & last ) = exp_iter . next_back ( ) { $$s }", "{ let ( nb__ , rest__ ) = __slice_next_back ( exp_iter ) ; exp_iter = rest__ ; if let Some ( & last ) = nb__ { $$s } }"),
     "R16ge": Rule("R16ge", "if zz >= *m { -> if !(zz.cmp(&*m) == Less) {  (std default `PartialOrd::ge` is `matches!(partial_cmp, Some(Greater | Equal))`, partial_cmp = Some(cmp) for BigUint)",
                   "if zz >= * m {", "if ! ( zz . cmp ( & * m ) == core :: cmp :: Ordering :: Less ) {"),
     "R17": Rule("R17", "self.sign.cmp(&other.sign) -> sign_cmp(&self.sign, &other.sign)",
@@ -743,6 +758,61 @@ def apply_ufcs(ss, specs, log, where):
         else:
             out.append(ss[i])
             i += 1
+    return out
+
+
+def _match_close(ss, k):
+    """index of the token closing the bracket opened at ss[k]"""
+    op = ss[k]
+    cl = {"(": ")", "{": "}", "[": "]"}[op]
+    d = 0
+    while k < len(ss):
+        if ss[k] == op:
+            d += 1
+        elif ss[k] == cl:
+            d -= 1
+            if d == 0:
+                return k
+        k += 1
+    raise ExtractError("unbalanced bracket")
+
+
+def apply_inline_closure(ss, log, where):
+    """R27: `let mut F = |P| { BODY };` with every use of F a direct call statement `F(ARG);`
+    -> the binding is dropped and each call becomes `{ let P = ARG; BODY }` (beta-reduction of a local closure:
+    the argument is evaluated first, then the body runs on the captured variables; BODY must not contain `return`,
+    and F must not be used in any other way -- both checked here)."""
+    for i in range(len(ss) - 6):
+        if ss[i] == "let" and ss[i + 1] == "mut" and ss[i + 3] == "=" and ss[i + 4] == "|" and ss[i + 6] == "|" and ss[i + 7] == "{":
+            break
+    else:
+        raise ExtractError("R27: no `let mut F = |P| { .. };` in " + where)
+    name, par = ss[i + 2], ss[i + 5]
+    e = _match_close(ss, i + 7)
+    if ss[e + 1] != ";":
+        raise ExtractError("R27: closure binding not terminated by `;`")
+    body = ss[i + 7:e + 1]
+    if "return" in body or "?" in body:
+        raise ExtractError("R27: closure body has non-local control flow")
+    rest = ss[e + 2:]
+    out = ss[:i]
+    k = 0
+    n = 0
+    while k < len(rest):
+        if rest[k] == name:
+            if not (k + 1 < len(rest) and rest[k + 1] == "("):
+                raise ExtractError("R27: closure used other than by direct call")
+            c = _match_close(rest, k + 1)
+            if rest[c + 1] != ";":
+                raise ExtractError("R27: closure call is not a statement")
+            out.extend(["{", "let", par, "="] + rest[k + 2:c] + [";"] + body + ["}"])
+            n += 1
+            k = c + 2
+        else:
+            out.append(rest[k])
+            k += 1
+    log.append({"rule": "R27", "function": where, "from": "let mut %s = |%s| {..}; %d call statements" % (name, par, n),
+                "to": "binding dropped; each call -> { let %s = ARG; BODY }" % par})
     return out
 
 
